@@ -109,3 +109,54 @@ Theorem cccd_follows_value c i s ch cci :
   attribute_at c i = Some (ACccd s ch cci) ->
   1 <= i /\ exists g, attribute_at c (i - 1) = Some (AValue s ch g cci) /\ has_cccd ch = true.
 Proof. unfold attribute_at. apply svcs_cccd_prev. Qed.
+
+(* ------------------------------------------------------------------ forward: the value attribute of a characteristic with CCCD is followed by the CCCD *)
+Lemma char_value_next s ch g cci0 i s' ch' g' cci :
+  char_attribute_at s ch g cci0 i = Some (AValue s' ch' g' cci) -> has_cccd ch' = true ->
+  i = 1 /\ 3 <= char_nattrs ch /\ char_attribute_at s ch g cci0 2 = Some (ACccd s' ch' cci).
+Proof.
+  unfold char_attribute_at, char_attrs, char_tail_attrs. intros H Hc.
+  destruct (N.to_nat i) as [|[|k]] eqn:E; cbn [nth_error] in H; try discriminate.
+  - inversion H; subst. rewrite Hc. split; [lia|]. split; [unfold char_nattrs, char_nccc, b2n; rewrite Hc; lia|]. reflexivity.
+  - exfalso. apply nth_error_In in H. apply in_app_or in H. destruct H as [H|H].
+    + destruct (has_cccd ch); [destruct H as [H|[]]; discriminate|destruct H].
+    + apply in_app_or in H. destruct H as [H|H].
+      * destruct (c_name ch); [destruct H as [H|[]]; discriminate|destruct H].
+      * apply in_map_iff in H. destruct H as (d & H & _). discriminate.
+Qed.
+
+Lemma chars_value_next s : forall cs g cci0 i s' ch' g' cci,
+  chars_attribute_at s cs g cci0 i = Some (AValue s' ch' g' cci) -> has_cccd ch' = true ->
+  chars_attribute_at s cs g cci0 (i + 1) = Some (ACccd s' ch' cci).
+Proof.
+  induction cs as [|ch t IH]; intros g cci0 i s' ch' g' cci H Hc; cbn [chars_attribute_at] in *; [discriminate|].
+  destruct (i <? char_nattrs ch) eqn:E.
+  - destruct (char_value_next _ _ _ _ _ _ _ _ _ H Hc) as (-> & L3 & H2).
+    replace (1 + 1 <? char_nattrs ch) with true by (symmetry; apply N.ltb_lt; lia). exact H2.
+  - apply N.ltb_ge in E. replace (i + 1 <? char_nattrs ch) with false by (symmetry; apply N.ltb_ge; lia).
+    replace (i + 1 - char_nattrs ch) with (i - char_nattrs ch + 1) by lia. eapply IH; eauto.
+Qed.
+
+Lemma svcs_value_next : forall ss g cci0 i s' ch' g' cci,
+  svcs_attribute_at ss g cci0 i = Some (AValue s' ch' g' cci) -> has_cccd ch' = true ->
+  svcs_attribute_at ss g cci0 (i + 1) = Some (ACccd s' ch' cci).
+Proof.
+  induction ss as [|s t IH]; intros g cci0 i s' ch' g' cci H Hc; cbn [svcs_attribute_at] in *; [discriminate|].
+  destruct (i <? svc_nattrs s) eqn:E.
+  - apply N.ltb_lt in E. unfold svc_attribute_at in H. destruct (i <? svc_nsattrs s) eqn:E2.
+    + destruct (i =? 0); [discriminate|]. destruct (nth_error _ _); discriminate.
+    + apply N.ltb_ge in E2. pose proof (chars_value_next _ _ _ _ _ _ _ _ _ H Hc) as Nx.
+      assert (Bd : i - svc_nsattrs s + 1 < sumN char_nattrs (s_chars s)).
+      { clear -Nx. revert Nx. generalize (i - svc_nsattrs s + 1) as j. generalize g, cci0.
+        induction (s_chars s) as [|ch t' IH']; intros g0 c0 j Nx; cbn [chars_attribute_at sumN] in *; [discriminate|].
+        destruct (j <? char_nattrs ch) eqn:Ej; [apply N.ltb_lt in Ej; lia|]. apply N.ltb_ge in Ej. apply IH' in Nx. lia. }
+      replace (i + 1 <? svc_nattrs s) with true by (symmetry; apply N.ltb_lt; unfold svc_nattrs; lia).
+      unfold svc_attribute_at. replace (i + 1 <? svc_nsattrs s) with false by (symmetry; apply N.ltb_ge; lia).
+      replace (i + 1 - svc_nsattrs s) with (i - svc_nsattrs s + 1) by lia. exact Nx.
+  - apply N.ltb_ge in E. replace (i + 1 <? svc_nattrs s) with false by (symmetry; apply N.ltb_ge; lia).
+    replace (i + 1 - svc_nattrs s) with (i - svc_nattrs s + 1) by lia. eapply IH; eauto.
+Qed.
+
+Theorem value_followed_by_cccd c i s ch g cci :
+  attribute_at c i = Some (AValue s ch g cci) -> has_cccd ch = true -> attribute_at c (i + 1) = Some (ACccd s ch cci).
+Proof. unfold attribute_at. apply svcs_value_next. Qed.
